@@ -33,6 +33,12 @@ CHECKS = {
               "called twice per generated record with argument snapshots before/after and repeatability of results.",
         note=_NOTE + " Functions that reject a container type (lists for some array functions) are counted as rejected; their inputs must still be unchanged.",
         technique="stateful property-based testing (Hypothesis RuleBasedStateMachine) + generated differential (snapshot before/after, call twice)"),
+    "C06": dict(
+        level="Generated search over records of every length class (odd, 2^e-1/2^e/2^e+1, up to 2000), dt, p2_plus, explicit n, padded/unpadded, Signal/AccSignal "
+              "against a direct O(N^2) DFT; linearity / trailing-zero / Parseval laws; inverse helper round trip for every even N; dominant period on "
+              "on-grid sinusoids with drawn phase; ~1.6k quick, ~160k thorough.",
+        note=_NOTE,
+        technique="property-based testing (Hypothesis): reference-model (direct DFT), metamorphic and round-trip oracles"),
     "C08": dict(
         level="Generated search over records (float/int/list), dt and integration mode against a long-double loop over the defining increments "
               "(equality on dyadic data), closed forms for constant/linear acceleration, exact peak / sign / 2^k laws.",
@@ -54,6 +60,17 @@ CHECKS = {
               "[1e-4,100] on both sides of 1 s, labels over printable ASCII, every loader entry point and factor m; ~1k quick, ~80k thorough.",
         note=_NOTE + " 'Same to 6 / 4 decimals' is read literally (within half a unit of the last kept decimal).",
         technique="property-based testing (Hypothesis): save/load round-trip oracle with a rational model of the format's rounding"),
+    "C19": dict(
+        level="Generated search against a long-double loop reference of the shifted-wave definition (fractional / whole / half-sample delays, scalar and array "
+              "reductions, all eight nodal x trim x start triples), cumulative-energy laws (bitwise for 2^k), batch-vs-single rows, and the integer shift helpers "
+              "with equality; ~1.6k quick, ~128k thorough.",
+        note=_NOTE + " Delays within 1e-9 of a whole number of samples are ambiguous and bracket-checked.",
+        technique="property-based testing (Hypothesis): reference-model + metamorphic oracles"),
+    "C20": dict(
+        level="Generated search against loop references for interp2d / interp_left / rolling average / step-fit error and levels, NZS 1170.5 identities, one-sided "
+              "limits and rejections, plus a complete geometric grid scan of the design-spectrum functions (enumeration); ~4k quick, ~400k thorough.",
+        note=_NOTE + " Open known finding C20-KF1 (integer-dtype truncation of the step-fit error) routes integer inputs to a truncation bracket.",
+        technique="property-based testing (Hypothesis): reference-model oracles + exhaustive grid scan"),
 }
 
 NOT_APPLICABLE = {}
